@@ -142,6 +142,8 @@ class AddressAg(AddressBase):
             self._line_addrgroup(line)
         else:
             raise ValueError(f"invalid address {line=}")
+        if not self._addrgroup:
+            self._items = []  # items are addresses of address group
 
     @property
     def platform(self) -> str:
